@@ -40,8 +40,27 @@ impl TcpObservation {
 
     pub(crate) fn distance_quirks(&self, other: &tcp::Signature) -> Option<u32> {
         // quirks are a set: the order in which they are listed or extracted carries no meaning
-        let same_set = self.quirks.iter().all(|q| other.quirks.contains(q))
-            && other.quirks.iter().all(|q| self.quirks.contains(q));
+        // df, id+, id- and 0+ describe IPv4 header fields and are ignored for IPv6 traffic;
+        // flow describes an IPv6 field and is ignored for IPv4 traffic (p0f README)
+        let ignored: &[tcp::Quirk] = match self.version {
+            IpVersion::V6 => &[
+                tcp::Quirk::Df,
+                tcp::Quirk::NonZeroID,
+                tcp::Quirk::ZeroID,
+                tcp::Quirk::MustBeZero,
+            ],
+            _ => &[tcp::Quirk::FlowID],
+        };
+        let same_set = self
+            .quirks
+            .iter()
+            .filter(|q| !ignored.contains(q))
+            .all(|q| other.quirks.contains(q))
+            && other
+                .quirks
+                .iter()
+                .filter(|q| !ignored.contains(q))
+                .all(|q| self.quirks.contains(q));
         if same_set {
             Some(tcp::TcpMatchQuality::High.as_score())
         } else {
